@@ -41,6 +41,7 @@ inline bool frame_spec(const Plan& p, FrameSpec& fs)
     fs.tp.extend = p.geti("extend") != 0;
     fs.tp.max_count = (unsigned)p.geti("maxcount", 3);
     fs.tp.max_data = (unsigned)p.geti("maxdata", 40);
+    fs.tp.max_boundary = (u64)p.geti("maxboundary", 70000);
     return true;
 }
 
